@@ -49,6 +49,23 @@ pub fn ring_case(ops: &Vec<Op>, ctx: &mut CaseCtx, cap_limit: usize) -> CaseResu
     if let Some((i, code)) = res {
         return Err(Failure::new(code_name(code), format!("op #{i} of {ops:?}")));
     }
+    // electric fence: the same list twice more, the buffer's allocation ending / starting exactly
+    // at an inaccessible page. An access beyond the allocation (also a read whose result is
+    // thrown away) ends the process; the launcher localises the case and writes the replay file.
+    for mode in [1u8, 2] {
+        let mut st = RbStats::default();
+        let (res, damaged, fenced) = alloc::fenced_scope(mode, || exec_ring(ops, cap_limit, &mut st));
+        if damaged > 0 {
+            return Err(Failure::new(
+                "ring_out_of_bounds_write",
+                format!("fence mode {mode}: {damaged} heap block(s) were written outside their bounds while executing {ops:?}"),
+            ));
+        }
+        if let Some((i, code)) = res {
+            return Err(Failure::new(code_name(code), format!("fence mode {mode}: op #{i} of {ops:?}")));
+        }
+        ctx.feat_if(fenced > 0, if mode == 1 { "fence:end_of_allocation_at_guard_page" } else { "fence:start_of_allocation_at_guard_page" });
+    }
     ctx.feat_if(stats.case1, "copy:case1_contiguous_src");
     ctx.feat_if(stats.case2, "copy:case2_wrapped_src_after_wrap");
     ctx.feat_if(stats.case3, "copy:case3_src_before_wrap");
@@ -94,6 +111,19 @@ pub fn decodebuf_case(case: &DCase, ctx: &mut CaseCtx) -> CaseResult {
     let mut feats = vec![];
     if let Some(kind) = exec_decodebuf(case, &mut msg, &mut feats) {
         return Err(Failure::new(kind, format!("{msg}; case {case:?}")));
+    }
+    // electric fence (see ring_case): every byte buffer of the run ends / starts at a guard page
+    for mode in [1u8, 2] {
+        let mut m2 = String::new();
+        let mut f2 = vec![];
+        let (res, damaged, fenced) = alloc::fenced_scope(mode, || exec_decodebuf(case, &mut m2, &mut f2));
+        if damaged > 0 {
+            return Err(Failure::new("ring_out_of_bounds_write", format!("fence mode {mode}: {damaged} heap block(s) were written outside their bounds; case {case:?}")));
+        }
+        if let Some(kind) = res {
+            return Err(Failure::new(kind, format!("fence mode {mode}: {m2}; case {case:?}")));
+        }
+        ctx.feat_if(fenced > 0, if mode == 1 { "fence:end_of_allocation_at_guard_page" } else { "fence:start_of_allocation_at_guard_page" });
     }
     for f in &feats {
         ctx.feat(f);
@@ -150,7 +180,7 @@ fn export_corpus(eng: &Engine, dir: &std::path::Path, n: usize) {
 pub fn run(eng: &Engine) {
     eng.set_rule("operation lists over RingBuffer (Reserve/Extend/Fill/FromReader/Within checked+unchecked/DropFirst/Clear/PushBack with operands resolved against the live cap/head/tail) and over DecodeBuffer (push/repeat incl. dictionary/overlap/fill/reader/all drain paths with partial and failing sinks/reset); non-trivial = an extend_from_within executed while the buffer is wrapped or that wraps it (ring), or a repeat on a wrapped buffer (decode buffer); distinct by hash of the op list");
     eng.assume("x86-64 only: CopyType = u128 (sse2); the usize fallback path is not compiled here");
-    eng.assume("out-of-bounds reads that do not flow into live data are invisible to the release harness; the thorough tier replays the same op lists under AddressSanitizer (cargo-fuzz target ringbuf_ops) and Miri");
+    eng.assume("accesses beyond the allocation are trapped by the harness allocator's fence mode (allocation flush against an inaccessible page, both ends in turn) also when the bytes read are discarded; reads of bytes INSIDE the allocation that were never written are visible to the release harness only when they flow into live data (poison pattern vs. queue model) - the thorough tier adds Miri for those, and AddressSanitizer (cargo-fuzz targets ringbuf_ops / decodebuf_ops) as a second engine");
     let limit = cap_limit(eng);
     let big = if eng.tier == Tier::Quick { 1500 } else { 300_000 };
     let n_ring = eng.tier.pick(300_000, 4_000_000);
